@@ -3,8 +3,8 @@
 NOTE_COMMON = ("Trusted: Lean kernel, axioms propext/Classical.choice/Quot.sound only (audited each run), the "
                "correspondence harness + generators, the stub-header from-source build; ")
 
-# property ids whose check module exists but is not claimed (kept out of MANIFEST.checks)
-DISABLED = set()
+# property ids whose check has been reviewed by the coordinator and is claimed in MANIFEST.checks
+ENABLED = ["C22"]
 
 HOOK_COMMITS = []
 
